@@ -9,3 +9,8 @@ CLAIMED["C14"] = dict(
          "schedule=>dispatch=>maintenance. A structural necessary condition: breaking any of them strands maintenance on some schedule. It does not decide absence of lost wake-ups over all interleavings.",
     note=TB + "Assumes the default executor eventually runs every submitted function and sync/atomic semantics.",
     ref="DESIGN.md §4 C14")
+CLAIMED["C16"] = dict(
+    technique="static analysis: dominance/edge-guard/order rules on the MPSC queue's SSA, atomic-access census, eviction-lock context analysis",
+    text="Decides on every path of internal/deque/queue the disciplines exactly-once delivery rests on: reserve (index CAS) before publish and slot derived from the pre-CAS reads; result protocol of the slow path ('full' only when no capacity is left, 'resize' only after the odd-index CAS); the five-step publication order of resize; consumer returns nil only for an empty queue, awaits unpublished slots, clears before advancing, follows the jump marker; all slot accesses atomic; single consumer (TryPop only under the eviction lock); the cache never drops a task it could not push. Does not decide exactly-once/FIFO delivery over interleavings.",
+    note=TB + "Assumes Go-memory-model sequential consistency of sync/atomic.",
+    ref="DESIGN.md §4 C16")
